@@ -17,6 +17,8 @@
 (*   ListKeysSizeLater    ListKeys sized its result after the snapshot     *)
 (*   CloneUnderRLock      iterator creation cloned the B-tree under RLock  *)
 (*   UnlockedReads        Sync/Merge read activeFile/isMerging unlocked    *)
+(*   UnlockAroundSync     (seeded change C08-a) the append releases db.mu  *)
+(*                        around its fsync and re-acquires it afterwards   *)
 (***************************************************************************)
 EXTENDS Integers, Sequences, FiniteSets, TLC
 
@@ -63,8 +65,16 @@ PutLock(c)   == /\ pc[c] = "start" /\ call[c].op = "Put" /\ Free /\ mu' = WLock(
                 /\ UNCHANGED <<call, log, idx, loc, res, merging, reg, seen, got>>
 PutAppend(c) == /\ pc[c] = "p.append" /\ log' = Append(log, [k |-> call[c].k, v |-> call[c].v])
                 /\ loc' = [loc EXCEPT ![c] = Len(log) + 1]
-                /\ Goto(c, IF Has("IndexOutsideLock") THEN "p.unlock" ELSE "p.index")
+                /\ Goto(c, IF Has("UnlockAroundSync") THEN "p.sync" ELSE IF Has("IndexOutsideLock") THEN "p.unlock" ELSE "p.index")
                 /\ UNCHANGED <<call, mu, idx, res, merging, reg, seen, got>>
+\* the fsync that follows the append under SyncStrategy Always / Threshold happens inside the critical section;
+\* Bug "UnlockAroundSync": the lock is dropped for its duration
+SyncDrop(c)  == /\ pc[c] \in {"p.sync", "d.sync"} /\ mu' = NoLock
+                /\ Goto(c, IF pc[c] = "p.sync" THEN "p.resync" ELSE "d.resync")
+                /\ UNCHANGED <<call, log, idx, loc, res, merging, reg, seen, got>>
+SyncRetake(c) == /\ pc[c] \in {"p.resync", "d.resync"} /\ Free /\ mu' = WLock(c)
+                 /\ Goto(c, IF pc[c] = "p.resync" THEN "p.index" ELSE "d.index")
+                 /\ UNCHANGED <<call, log, idx, loc, res, merging, reg, seen, got>>
 PutIndex(c)  == /\ pc[c] = "p.index" /\ idx' = [idx EXCEPT ![call[c].k] = loc[c]]
                 /\ reg' = [reg EXCEPT ![call[c].k] = call[c].v]               \* linearization point
                 /\ (IF Has("IndexOutsideLock") THEN Ret(c, "ok") ELSE Goto(c, "p.unlock") /\ UNCHANGED res)
@@ -86,7 +96,7 @@ DelCheck(c)  == /\ pc[c] = "d.check"
                     ELSE Goto(c, "d.append") /\ UNCHANGED <<mu, res>>)
                 /\ UNCHANGED <<call, log, idx, loc, merging, reg, seen, got>>
 DelAppend(c) == /\ pc[c] = "d.append" /\ log' = Append(log, [k |-> call[c].k, v |-> Nil])
-                /\ Goto(c, IF Has("IndexOutsideLock") THEN "d.unlock" ELSE "d.index")
+                /\ Goto(c, IF Has("UnlockAroundSync") THEN "d.sync" ELSE IF Has("IndexOutsideLock") THEN "d.unlock" ELSE "d.index")
                 /\ UNCHANGED <<call, mu, idx, loc, res, merging, reg, seen, got>>
 DelIndex(c)  == /\ pc[c] = "d.index"
                 /\ idx' = [idx EXCEPT ![call[c].k] = 0] /\ reg' = [reg EXCEPT ![call[c].k] = Nil]
@@ -153,7 +163,7 @@ MeScan(c)   == /\ pc[c] = "m.scan"
 MeEnd(c)    == /\ pc[c] = "m.end" /\ Free /\ merging' = FALSE /\ Ret(c, "ok")
                /\ UNCHANGED <<call, mu, log, idx, loc, reg, seen, got>>
 
-Step(c) == \/ PutLock(c) \/ PutAppend(c) \/ PutIndex(c) \/ PutUnlock(c)
+Step(c) == \/ PutLock(c) \/ PutAppend(c) \/ PutIndex(c) \/ PutUnlock(c) \/ SyncDrop(c) \/ SyncRetake(c)
            \/ DelCheck0(c) \/ DelLock(c) \/ DelCheck(c) \/ DelAppend(c) \/ DelIndex(c) \/ DelUnlock(c)
            \/ GetLookup(c) \/ GetRLock(c) \/ GetRead(c)
            \/ LkSnap(c) \/ LkSize(c) \/ SyLock(c) \/ SyUnlock(c)
